@@ -61,7 +61,10 @@ typedef struct trial {
 	int retarget;                /* retarget mode: queues [ntargets, nq) are leaves whose target changes while they are in use */
 	int ntargets;
 	_Atomic int rt_stop;
-	_Atomic uint64_t retargets, ephemeral;
+	_Atomic uint64_t retargets, ephemeral, to_workloop, while_suspended;
+	dispatch_queue_t rt_workloop;
+	_Atomic int frozen[MAXQ];      /* leaf was moved onto a workloop: it cannot be retargeted anymore */
+	pthread_mutex_t rt_mtx[MAXQ];  /* one retarget call per leaf at a time (the freeze must be the last one) */
 	uint64_t salt;
 	vf_profile_t prof;
 	_Atomic int tids[64];
@@ -340,6 +343,8 @@ static void build_retarget_graph(trial_t *t)
 		q->q = dispatch_queue_create(q->label, attr);
 		if (leaf && vf_rnd_n(r, 2)) dispatch_set_target_queue(q->q, t->qs[vf_rnd_n(r, (uint32_t)t->ntargets)].q);
 	}
+	t->rt_workloop = (dispatch_queue_t)dispatch_workloop_create("vf.rt.workloop");
+	for (int i = 0; i < MAXQ; i++) pthread_mutex_init(&t->rt_mtx[i], NULL);
 	t->retarget = 1;
 }
 
@@ -349,8 +354,22 @@ static void *retargeter_main(void *arg)
 	vf_rng_t r;
 	vf_rng_seed(&r, t->salt, 0x7e7a);
 	while (!atomic_load(&t->rt_stop)) {
-		hq_queue_t *leaf = &t->qs[t->ntargets + (int)vf_rnd_n(&r, (uint32_t)(t->nq - t->ntargets))];
+		int li = t->ntargets + (int)vf_rnd_n(&r, (uint32_t)(t->nq - t->ntargets));
+		hq_queue_t *leaf = &t->qs[li];
+		pthread_mutex_lock(&t->rt_mtx[li]);
+		if (atomic_load(&t->frozen[li])) { pthread_mutex_unlock(&t->rt_mtx[li]); sched_yield(); continue; }
 		uint32_t c = vf_rnd_n(&r, 13);
+		if (vf_rnd_n(&r, 400) == 0) {
+			/* one way: a queue that targets a workloop is not retargetable anymore */
+			atomic_store(&t->frozen[li], 1);
+			dispatch_set_target_queue(leaf->q, t->rt_workloop);
+			atomic_fetch_add(&t->to_workloop, 1);
+			atomic_fetch_add(&t->retargets, 1);
+			pthread_mutex_unlock(&t->rt_mtx[li]);
+			continue;
+		}
+		int susp = vf_rnd_n(&r, 6) == 0;
+		if (susp) { dispatch_suspend(leaf->q); atomic_fetch_add(&t->while_suspended, 1); }
 		dispatch_queue_t tq = c < 7 ? t->qs[vf_rnd_n(&r, (uint32_t)t->ntargets)].q :
 				c < 9 ? dispatch_get_global_queue(c == 7 ? DISPATCH_QUEUE_PRIORITY_DEFAULT : DISPATCH_QUEUE_PRIORITY_LOW, 0) :
 				c < 10 ? DISPATCH_TARGET_QUEUE_DEFAULT : NULL;
@@ -364,6 +383,8 @@ static void *retargeter_main(void *arg)
 		} else {
 			dispatch_set_target_queue(leaf->q, tq);
 		}
+		if (susp) { if (vf_rnd_n(&r, 2)) sched_yield(); dispatch_resume(leaf->q); }
+		pthread_mutex_unlock(&t->rt_mtx[li]);
 		/* (not logical progress for the watchdog: clients stuck behind a retarget must yield a stuck witness) */
 		if (atomic_fetch_add(&t->retargets, 1) >= 20000) { struct timespec ts = { 0, 2000000 }; nanosleep(&ts, NULL); continue; }
 		uint32_t w = vf_rnd_n(&r, 4);
@@ -537,6 +558,7 @@ static void teardown(trial_t *t)
 		hq_queue_t *q = &t->qs[order[i]];
 		if (q->kind != VF_Q_GLOBAL) dispatch_release(q->q);
 	}
+	if (t->rt_workloop) dispatch_release(t->rt_workloop);
 }
 
 static void run_std_trial(int idx)
@@ -591,6 +613,8 @@ static void run_std_trial(int idx)
 		vf_count("retargets_while_in_use", atomic_load(&t->retargets));
 		vf_count("retarget_trials", 1);
 		vf_count("retargets_to_ephemeral_queue", atomic_load(&t->ephemeral));
+		vf_count("retargets_to_workloop", atomic_load(&t->to_workloop));
+		vf_count("retargets_while_suspended", atomic_load(&t->while_suspended));
 	}
 	vf_watch_end();
 	/* all submissions returned: now every accepted item must run */
